@@ -32,6 +32,7 @@ type session struct {
 	// oracle does not read the reply (backend recorder checks).
 	tolerateMalformed bool
 	decoy             *absnfs.AbsfsNFS
+	wedged            bool // a configuration call never returned; the export is left alone
 }
 
 // newDecoy creates a second, unrelated export in the same process with settings that contrast with opts (other
@@ -72,6 +73,9 @@ func (s *session) close() {
 	if s.decoy != nil {
 		s.decoy.Close()
 	}
+	if s.wedged {
+		return // a configuration call of this export never returned: closing it would park this goroutine too
+	}
 	if s.e.ViaConn {
 		stat.Label("session_over_connection_loop", 1)
 	}
@@ -83,6 +87,33 @@ func (s *session) close() {
 		stat.Label("session_with_idle_rate_limiting", 1)
 	}
 	s.e.Close()
+}
+
+// updWait: how long a configuration update of an export with no request in flight may take before the case is decided
+// as "never returns". The first detection in a process waits generously; the repetitions rapid makes while shrinking
+// use a short wait (they only decide how small the reported case gets).
+var updSeen atomic.Bool
+
+func updWait() time.Duration {
+	if updSeen.Load() {
+		return 2 * time.Second
+	}
+	return 30 * time.Second
+}
+
+// bounded runs a configuration call of the session's export that has nothing to wait for (no request of the session is
+// in flight) and reports whether it returned. When it did not, the session is marked wedged and is not closed.
+func (s *session) bounded(f func() error) (err error, returned bool) {
+	done := make(chan error, 1)
+	go func() { done <- f() }()
+	select {
+	case err = <-done:
+		return err, true
+	case <-time.After(updWait()):
+		updSeen.Store(true)
+		s.wedged = true
+		return nil, false
+	}
 }
 
 // guard runs f and converts an abandon panic into a discarded case.
